@@ -24,9 +24,12 @@ import (
 
 const sentinelSid = 120 // fits the one-byte stream id of protocol v2
 
+type M = map[string]interface{}
+
 type failure struct {
-	What  string `json:"what"`
-	Class string `json:"class,omitempty"`
+	What   string      `json:"what"`
+	Class  string      `json:"class,omitempty"`
+	Detail interface{} `json:"detail,omitempty"` // structured form of What (which envelope, where in which segment)
 }
 
 // a segment of a script: self-contained or not, payload = concatenation of slices (envelope index, from, to)
@@ -72,6 +75,113 @@ type result struct {
 
 func (r *result) fail(class, format string, a ...interface{}) {
 	r.Failures = append(r.Failures, failure{What: fmt.Sprintf(format, a...), Class: class})
+	if class != "harness" {
+		losePatience() // the run reports a violation anyway: the remaining sessions wait a few seconds only (see raw.go)
+	}
+}
+
+func (r *result) failDetail(class string, detail interface{}, format string, a ...interface{}) {
+	r.fail(class, format, a...)
+	r.Failures[len(r.Failures)-1].Detail = detail
+}
+
+// ---- delivery: every envelope sent is handed to the user exactly once, in the order sent
+
+// where an envelope sits in the segmentation chosen by the raw peer
+type envPlace struct {
+	Index   int    `json:"envelope"` // index in the script (the sentinel is the last)
+	Kind    string `json:"kind"`
+	Sid     int    `json:"stream"`
+	Len     int    `json:"bytes"`
+	Bare    bool   `json:"bare_header"` // the envelope is a 9-byte header with an empty body
+	Segment int    `json:"segment"`     // index of the segment that carries it (its first byte); -1: not in the plan
+	Self    bool   `json:"self_contained"`
+	Pos     int    `json:"position"` // 1-based among the slices of that segment
+	Of      int    `json:"of"`
+	SegLen  int    `json:"segment_payload_bytes"`
+}
+
+func placeOf(plan []segPlan, i int, spec frameSpec, envLen int) envPlace {
+	pl := envPlace{Index: i, Kind: spec.Kind, Sid: spec.Sid, Len: envLen, Bare: envLen == 9, Segment: -1}
+	for s, p := range plan {
+		n := 0
+		for _, sl := range p.Slices {
+			n += sl[2] - sl[1]
+		}
+		for k, sl := range p.Slices {
+			if sl[0] == i && sl[1] == 0 {
+				pl.Segment, pl.Self, pl.Pos, pl.Of, pl.SegLen = s, p.Self, k+1, len(p.Slices), n
+				return pl
+			}
+		}
+	}
+	return pl
+}
+
+func (p envPlace) String() string {
+	what := fmt.Sprintf("envelope %d (%s, stream %d, %d bytes", p.Index, p.Kind, p.Sid, p.Len)
+	if p.Bare {
+		what += ": a bare header with an empty body"
+	}
+	what += ")"
+	if p.Segment < 0 {
+		return what
+	}
+	if !p.Self {
+		return what + fmt.Sprintf(", cut over non-self-contained segments starting at segment %d", p.Segment)
+	}
+	where := fmt.Sprintf("envelope %d of %d", p.Pos, p.Of)
+	if p.Of == 1 {
+		where = "the only envelope"
+	} else if p.Pos == p.Of {
+		where = fmt.Sprintf("the last of the %d envelopes", p.Of)
+	}
+	return what + fmt.Sprintf(", %s of self-contained segment %d (payload %d bytes)", where, p.Segment, p.SegLen)
+}
+
+// deliveryCheck compares the stream ids handed over (in order) with the stream ids sent (in order, distinct):
+// indices never delivered, indices delivered more than once, stream ids nobody sent, and the first inversion of order.
+func deliveryCheck(sent []int, got []int) (missing, dup []int, unknown []int, inversion [2]int, inverted bool) {
+	idx := map[int]int{}
+	for i, s := range sent {
+		idx[s] = i
+	}
+	count := map[int]int{}
+	last := -1
+	for _, g := range got {
+		i, ok := idx[g]
+		if !ok {
+			unknown = append(unknown, g)
+			continue
+		}
+		count[i]++
+		if count[i] > 1 {
+			continue
+		}
+		if i < last && !inverted {
+			inversion, inverted = [2]int{last, i}, true
+		}
+		if i > last {
+			last = i
+		}
+	}
+	for i := range sent {
+		if count[i] == 0 {
+			missing = append(missing, i)
+		} else if count[i] > 1 {
+			dup = append(dup, i)
+		}
+	}
+	return
+}
+
+func sentinelRequest() frameSpec {
+	// the envelope that ends a script has a body: the end of a session must not depend on how bare headers are treated
+	return frameSpec{Kind: "query", Sid: sentinelSid, Fill: "p", Seed: 9, N: 12}
+}
+
+func sentinelResponse() frameSpec {
+	return frameSpec{Kind: "rows", Sid: sentinelSid, Fill: "p", Seed: 9, N: 12}
 }
 
 var creds = &client.AuthCredentials{Username: "cassandra", Password: "cassandra"}
@@ -202,7 +312,7 @@ func runLoopback(id string, v primitive.ProtocolVersion, comp primitive.Compress
 	defer server.Close()
 	clt := client.NewCqlClient(addr, credsFor(auth))
 	clt.Compression = comp
-	clt.ReadTimeout = ioTimeout
+	clt.ReadTimeout = patience()
 	cc, sc, err := server.BindAndInit(clt, ctx, v, 1)
 	if err != nil {
 		res.fail("handshake", "handshake failed: %v", err)
@@ -243,8 +353,8 @@ func runLoopback(id string, v primitive.ProtocolVersion, comp primitive.Compress
 			got[i] = r
 		}
 	}
-	if !side.wait(ioTimeout) {
-		res.fail("", "the server side did not see the last request within %v", ioTimeout)
+	if !side.wait(patience()) {
+		res.fail("", "the server side did not see the last request within %v", patience())
 	}
 	rec, srvSent := side.snapshot()
 	if len(rec) != len(all) {
@@ -473,7 +583,7 @@ func runRawClient(id string, v primitive.ProtocolVersion, comp primitive.Compres
 	}
 
 	// ---- the script
-	all := append(append([]frameSpec(nil), script.Specs...), frameSpec{Kind: "options", Sid: sentinelSid})
+	all := append(append([]frameSpec(nil), script.Specs...), sentinelRequest())
 	frames := make([]*frame.Frame, len(all))
 	fills := make([][]byte, len(all))
 	envs := make([][]byte, len(all))
@@ -553,8 +663,8 @@ func runRawClient(id string, v primitive.ProtocolVersion, comp primitive.Compres
 			}
 		}
 	}
-	if !side.wait(ioTimeout) {
-		res.fail("", "the server side did not finish within %v", ioTimeout)
+	if !side.wait(patience()) {
+		res.fail("", "the server side did not finish within %v", patience())
 	}
 	if side.hsErr != nil {
 		res.fail("handshake", "server handshake: %v", side.hsErr)
@@ -567,12 +677,42 @@ func runRawClient(id string, v primitive.ProtocolVersion, comp primitive.Compres
 		if outcome != "ok" {
 			res.fail(script.Class, "the server closed the connection during a spec-conforming script (%d of %d envelopes delivered)", len(rec), len(all))
 		}
-		if len(rec) != len(all) {
-			res.fail(script.Class, "server delivered %d envelopes, the peer sent %d", len(rec), len(all))
+		// every envelope sent is delivered exactly once, in the order sent (stream ids are distinct within a script)
+		sentSids := make([]int, len(all))
+		for i, sp := range all {
+			sentSids[i] = sp.Sid
 		}
-		for i := 0; i < len(rec) && i < len(all); i++ {
-			if d := sameFrame(frames[i], rec[i]); d != "" {
-				res.fail(firstNonEmpty(lz4Class(comp, fills[i]), script.Class), "envelope %d (%s, stream %d, %d bytes) arrived different at the server: %s", i, all[i].Kind, all[i].Sid, len(envs[i]), d)
+		gotSids := make([]int, len(rec))
+		for j, f := range rec {
+			gotSids[j] = int(f.Header.StreamId)
+		}
+		place := func(i int) envPlace { return placeOf(plan, i, all[i], len(envs[i])) }
+		missing, dup, unknown, inv, inverted := deliveryCheck(sentSids, gotSids)
+		for k, i := range missing {
+			if k >= 4 {
+				break
+			}
+			pl := place(i)
+			res.failDetail(firstNonEmpty(lz4Class(comp, fills[i]), script.Class), M{"not_delivered": pl, "delivered": len(rec), "sent": len(all), "not_delivered_count": len(missing)},
+				"%s was never delivered by the server (%d of the %d envelopes sent were delivered)", pl, len(rec)-len(unknown), len(all))
+		}
+		for _, i := range dup {
+			pl := place(i)
+			res.failDetail(script.Class, M{"delivered_twice": pl}, "%s was delivered more than once by the server", pl)
+		}
+		for _, g := range unknown {
+			res.fail(script.Class, "the server delivered an envelope with stream id %d that the peer never sent", g)
+		}
+		if inverted {
+			res.failDetail(script.Class, M{"before": place(inv[0]), "after": place(inv[1])}, "delivered out of order: %s was delivered after %s", place(inv[1]), place(inv[0]))
+		}
+		for _, f := range rec {
+			i, ok := bySidSpec[f.Header.StreamId]
+			if !ok {
+				continue
+			}
+			if d := sameFrame(frames[i], f); d != "" {
+				res.fail(firstNonEmpty(lz4Class(comp, fills[i]), script.Class), "%s arrived different at the server: %s", place(i), d)
 				break
 			}
 		}
@@ -646,7 +786,7 @@ func runRawServer(id string, v primitive.ProtocolVersion, comp primitive.Compres
 	defer ln.Close()
 	clt := client.NewCqlClient(ln.Addr().String(), credsFor(auth))
 	clt.Compression = comp
-	clt.ReadTimeout = 8 * time.Second
+	clt.ReadTimeout = patience()
 	clt.ConnectTimeout = 10 * time.Second
 	var cc *client.CqlClientConnection
 	var hsErr error
@@ -677,7 +817,7 @@ func runRawServer(id string, v primitive.ProtocolVersion, comp primitive.Compres
 	modern := v.SupportsModernFramingLayout()
 
 	// ---- handshake, server side; STARTUP must be a plain, uncompressed, unframed envelope
-	_ = conn.SetReadDeadline(time.Now().Add(ioTimeout))
+	_ = conn.SetReadDeadline(time.Now().Add(patience()))
 	st, err := plainCodec.DecodeFrame(p.rd)
 	if err != nil {
 		res.fail("wire-format", "STARTUP is not a plain (unframed, uncompressed) envelope: %v", err)
@@ -737,8 +877,8 @@ func runRawServer(id string, v primitive.ProtocolVersion, comp primitive.Compres
 	}
 	select {
 	case <-hsDone:
-	case <-time.After(ioTimeout):
-		res.fail("handshake", "client handshake did not finish within %v", ioTimeout)
+	case <-time.After(patience()):
+		res.fail("handshake", "client handshake did not finish within %v", patience())
 		return res
 	}
 	if hsErr != nil {
@@ -746,7 +886,9 @@ func runRawServer(id string, v primitive.ProtocolVersion, comp primitive.Compres
 		return res
 	}
 
-	// ---- requests written by the real client
+	// ---- requests written by the real client; the last one is the sentinel, whose response (it has a body) ends the script
+	reqs = append(append([]frameSpec(nil), reqs...), sentinelRequest())
+	evch := cc.EventChannel()
 	sentReq := make([]*frame.Frame, len(reqs))
 	reqFills := make([][]byte, len(reqs))
 	reqDescs := make([]envDesc, len(reqs))
@@ -800,8 +942,8 @@ func runRawServer(id string, v primitive.ProtocolVersion, comp primitive.Compres
 		}
 	}
 
-	// ---- responses and events in the segmentation of the script
-	all := script.Specs
+	// ---- responses and events in the segmentation of the script, then the response to the sentinel in a segment of its own
+	all := append(append([]frameSpec(nil), script.Specs...), sentinelResponse())
 	frames := make([]*frame.Frame, len(all))
 	fills := make([][]byte, len(all))
 	envs := make([][]byte, len(all))
@@ -827,8 +969,10 @@ func runRawServer(id string, v primitive.ProtocolVersion, comp primitive.Compres
 	}
 	res.Frames = len(all) + len(reqs)
 	var wire []wireSeg
+	plan := append([]segPlan(nil), script.Plan...)
 	if modern {
-		wire = buildWire(envs, script.Plan)
+		plan = append(plan, segPlan{Self: true, Slices: [][3]int{{len(all) - 1, 0, len(envs[len(all)-1])}}})
+		wire = buildWire(envs, plan)
 		res.Segments = len(wire)
 		if err := p.writeSegments(wire); err != nil {
 			res.Obs["write_error"] = err.Error()
@@ -842,59 +986,114 @@ func runRawServer(id string, v primitive.ProtocolVersion, comp primitive.Compres
 		}
 	}
 
-	// ---- what the real client hands to its user
+	// ---- what the real client hands to its user.  The client's read loop dispatches frames one after the other: once the
+	//      response to the sentinel (the last envelope written) has been handed over, every envelope written before it has
+	//      been dispatched - to the buffered channel of its in-flight request or to the buffered event channel - or never
+	//      will be.  So only the sentinel is waited for; everything else is then there or missing, without further waiting.
 	bySid := map[int16]*frame.Frame{}
+	idxOf := map[int]int{}
 	var events []*frame.Frame
-	for _, f := range frames {
+	var eventIdx []int
+	for i, f := range frames {
 		if f.Header.OpCode == primitive.OpCodeEvent {
 			events = append(events, f)
+			eventIdx = append(eventIdx, i)
 		} else {
 			bySid[f.Header.StreamId] = f
+			idxOf[int(f.Header.StreamId)] = i
 		}
 	}
+	place := func(i int) envPlace { return placeOf(plan, i, all[i], len(envs[i])) }
 	outcome := "ok"
 	var deliveredResp [][3]int
 	missing := 0
-	for i, ch := range chans {
+	sentinelSeen := false
+	if r, err := cc.Receive(chans[len(chans)-1]); err == nil && r != nil {
+		sentinelSeen = true
+		deliveredResp = append(deliveredResp, obs3(r))
+		if d := sameFrame(frames[len(frames)-1], r); d != "" {
+			res.fail(script.Class, "the response that ends the script (stream %d) arrived different at the client: %s", sentinelSid, d)
+		}
+	} else {
+		if cc.IsClosed() {
+			outcome = "abort"
+		}
+		if script.Conforming {
+			res.fail(script.Class, "the response that ends the script (stream %d, a RESULT with a body, alone in the last segment) was not delivered: %v", sentinelSid, err)
+		}
+	}
+	grace := 2 * time.Second // the frames are already in their channels (see above); the margin costs nothing when they are
+	if !sentinelSeen {
+		grace = 200 * time.Millisecond
+	}
+	within := func(ch <-chan *frame.Frame, d time.Duration) (*frame.Frame, bool) {
+		select {
+		case f, ok := <-ch:
+			return f, ok && f != nil
+		default:
+		}
+		select {
+		case f, ok := <-ch:
+			return f, ok && f != nil
+		case <-time.After(d):
+			return nil, false
+		}
+	}
+	notDelivered := 0
+	for i, ch := range chans[:len(chans)-1] {
 		wantF := bySid[int16(reqs[i].Sid)]
 		if wantF == nil {
 			continue // the script answers only some requests
 		}
-		r, err := cc.Receive(ch)
-		if err != nil || r == nil {
+		r, ok := within(ch.Incoming(), grace)
+		if !ok {
 			missing++
 			if cc.IsClosed() {
 				outcome = "abort"
 			}
 			if script.Conforming {
-				res.fail(script.Class, "no response delivered for stream %d: %v", reqs[i].Sid, err)
+				pl := place(idxOf[reqs[i].Sid])
+				if notDelivered < 4 {
+					res.failDetail(script.Class, M{"not_delivered": pl, "sentinel_delivered": sentinelSeen},
+						"%s was never delivered to the client's request on stream %d (the response written after it was delivered: %v)", pl, reqs[i].Sid, sentinelSeen)
+				}
+				notDelivered++
 			}
+			grace = 200 * time.Millisecond
 			continue
 		}
 		deliveredResp = append(deliveredResp, obs3(r))
 		if d := sameFrame(wantF, r); d != "" {
-			res.fail(firstNonEmpty(lz4Class(comp, fills...), script.Class), "response for stream %d arrived different at the client: %s", reqs[i].Sid, d)
+			res.fail(firstNonEmpty(lz4Class(comp, fills...), script.Class), "%s arrived different at the client: %s", place(idxOf[reqs[i].Sid]), d)
+		}
+		if extra, ok := within(ch.Incoming(), 0); ok {
+			res.failDetail(script.Class, M{"delivered_twice": place(idxOf[reqs[i].Sid])}, "a second frame (opcode %v) was delivered to the request on stream %d", extra.Header.OpCode, reqs[i].Sid)
 		}
 	}
+	// events: exactly the events written, in the order written
 	var deliveredEv [][3]int
 	for i, e := range events {
-		if cc.IsClosed() {
-			outcome = "abort"
+		if evch == nil {
 			break
 		}
-		r, err := cc.ReceiveEvent()
-		if err != nil || r == nil {
+		r, ok := within(evch, grace)
+		if !ok {
 			if cc.IsClosed() {
 				outcome = "abort"
 			}
 			if script.Conforming {
-				res.fail(script.Class, "event %d was not delivered: %v", i, err)
+				res.failDetail(script.Class, M{"not_delivered": place(eventIdx[i])}, "event %d: %s was not delivered (%d of %d events delivered)", i, place(eventIdx[i]), len(deliveredEv), len(events))
 			}
 			break
 		}
 		deliveredEv = append(deliveredEv, obs3(r))
 		if d := sameFrame(e, r); d != "" {
-			res.fail(script.Class, "event %d arrived different (or out of order) at the client: %s", i, d)
+			res.fail(script.Class, "event %d: %s arrived different (or out of order) at the client: %s", i, place(eventIdx[i]), d)
+		}
+	}
+	if evch != nil && len(deliveredEv) == len(events) {
+		if extra, ok := within(evch, 0); ok {
+			res.fail(script.Class, "an event nobody sent (or a duplicate) was delivered: stream %d, body length %d", extra.Header.StreamId, extra.Header.BodyLength)
 		}
 	}
 	if cc.IsClosed() {
@@ -908,7 +1107,7 @@ func runRawServer(id string, v primitive.ProtocolVersion, comp primitive.Compres
 	sort.Slice(deliveredResp, func(i, j int) bool { return deliveredResp[i][0] < deliveredResp[j][0] })
 
 	if modern {
-		c := &corrRec{Role: "client", Comp: compName(comp), Envs: descs, Plan: script.Plan, Payloads: obsOf(wire), Outcome: outcome,
+		c := &corrRec{Role: "client", Comp: compName(comp), Envs: descs, Plan: plan, Payloads: obsOf(wire), Outcome: outcome,
 			Conforming: script.Conforming, Class: script.Class, Delivered: deliveredEv, Responses: deliveredResp,
 			TxRole: "client", TxFrames: reqDescs, TxPayloads: obsOf(txSegs)}
 		for _, w := range txSegs {
